@@ -167,6 +167,64 @@ impl<'tcx> Cx<'tcx> {
         jarr(v)
     }
 
+    fn region_name(&self, r: ty::Region<'tcx>) -> String {
+        match r.kind() {
+            ty::ReEarlyParam(ep) => format!("e{}", ep.index),
+            ty::ReBound(_, br) => format!("b{}", br.var.as_u32()),
+            ty::ReStatic => "static".to_string(),
+            _ => format!("?{:?}", r),
+        }
+    }
+
+    /// Regions (early-bound, late-bound of the enclosing fn binder, 'static) occurring in a value, repetition removed.
+    fn regions_json<T: ty::TypeVisitable<TyCtxt<'tcx>>>(&self, t: T) -> String {
+        let mut rc = RegionCollector { cx: self, depth: 0, names: Vec::new(), in_alias: false, alias_names: Vec::new() };
+        t.visit_with(&mut rc);
+        jarr(rc.names.iter().map(|x| js(x)))
+    }
+
+    /// Regions that occur only inside the arguments of projection / opaque alias types of a value.
+    fn alias_regions_json<T: ty::TypeVisitable<TyCtxt<'tcx>>>(&self, t: T) -> String {
+        let mut rc = RegionCollector { cx: self, depth: 0, names: Vec::new(), in_alias: false, alias_names: Vec::new() };
+        t.visit_with(&mut rc);
+        jarr(rc.alias_names.iter().map(|x| js(x)))
+    }
+
+    /// Names of the type parameters occurring in a type.
+    fn ty_params_json(&self, t: Ty<'tcx>) -> String {
+        let mut v: Vec<String> = Vec::new();
+        for a in t.walk() {
+            if let GenericArgKind::Type(tt) = a.kind() {
+                if let ty::Param(p) = tt.kind() {
+                    let n = p.name.to_string();
+                    if !v.contains(&n) {
+                        v.push(n);
+                    }
+                }
+            }
+        }
+        jarr(v.iter().map(|x| js(x)))
+    }
+
+    /// Per predicate: its text, the free regions and the type parameters it mentions.
+    fn pred_regions_json(&self, d: DefId) -> String {
+        let preds = self.tcx.predicates_of(d).instantiate_identity(self.tcx);
+        let mut v = Vec::new();
+        for p in preds.predicates.iter() {
+            let c = p.skip_norm_wip();
+            let mut pc = ParamCollector { names: Vec::new() };
+            use rustc_middle::ty::TypeVisitable as _;
+            c.visit_with(&mut pc);
+            let ps = pc.names;
+            v.push(jobj(&[
+                ("s", js(&with_no_trimmed_paths!(format!("{}", c)))),
+                ("regions", self.regions_json(c)),
+                ("params", jarr(ps.iter().map(|x| js(x)))),
+            ]));
+        }
+        jarr(v)
+    }
+
     fn garg_json(&self, a: ty::GenericArg<'tcx>) -> String {
         match a.kind() {
             GenericArgKind::Lifetime(r) => jobj(&[("k", js("lt")), ("s", js(&format!("{:?}", r)))]),
@@ -727,6 +785,71 @@ impl<'tcx> Cx<'tcx> {
 }
 
 
+struct RegionCollector<'a, 'tcx> {
+    cx: &'a Cx<'tcx>,
+    depth: u32,
+    names: Vec<String>,
+    in_alias: bool,
+    alias_names: Vec<String>,
+}
+
+impl<'a, 'tcx> ty::TypeVisitor<TyCtxt<'tcx>> for RegionCollector<'a, 'tcx> {
+    fn visit_binder<T: ty::TypeVisitable<TyCtxt<'tcx>>>(&mut self, t: &ty::Binder<'tcx, T>) {
+        use rustc_middle::ty::TypeSuperVisitable as _;
+        self.depth += 1;
+        t.super_visit_with(self);
+        self.depth -= 1;
+    }
+
+    fn visit_ty(&mut self, t: Ty<'tcx>) {
+        use rustc_middle::ty::TypeSuperVisitable as _;
+        // regions inside the arguments of a projection / opaque alias are inputs of a type function, not content
+        if let ty::Alias(..) = t.kind() {
+            let was = self.in_alias;
+            self.in_alias = true;
+            t.super_visit_with(self);
+            self.in_alias = was;
+            return;
+        }
+        t.super_visit_with(self)
+    }
+
+    fn visit_region(&mut self, r: ty::Region<'tcx>) {
+        if let ty::ReBound(idx, _) = r.kind() {
+            // only the regions of the binder we are directly under (the fn signature's own late-bound regions)
+            let d = match idx {
+                ty::BoundVarIndexKind::Bound(d) => d.as_u32(),
+                _ => return,
+            };
+            if d != self.depth {
+                return;
+            }
+        }
+        let n = self.cx.region_name(r);
+        let v = if self.in_alias { &mut self.alias_names } else { &mut self.names };
+        if !v.contains(&n) {
+            v.push(n);
+        }
+    }
+}
+
+struct ParamCollector {
+    names: Vec<String>,
+}
+
+impl<'tcx> ty::TypeVisitor<TyCtxt<'tcx>> for ParamCollector {
+    fn visit_ty(&mut self, t: Ty<'tcx>) {
+        use rustc_middle::ty::TypeSuperVisitable as _;
+        if let ty::Param(p) = t.kind() {
+            let n = p.name.to_string();
+            if !self.names.contains(&n) {
+                self.names.push(n);
+            }
+        }
+        t.super_visit_with(self)
+    }
+}
+
 impl<'tcx> Cx<'tcx> {
     fn item_json(&self, did: DefId) -> String {
         let tcx = self.tcx;
@@ -748,6 +871,12 @@ impl<'tcx> Cx<'tcx> {
             f.push(("inputs", jarr(s.inputs().iter().map(|t| js(&self.ty(*t))))));
             f.push(("output", js(&self.ty(s.output()))));
             f.push(("output_dbg", js(&with_no_trimmed_paths!(format!("{:?}", s.output())))));
+            f.push(("in_regions", jarr(s.inputs().iter().map(|t| self.regions_json(*t)))));
+            f.push(("out_regions", self.regions_json(s.output())));
+            f.push(("out_alias_regions", self.alias_regions_json(s.output())));
+            f.push(("in_params", jarr(s.inputs().iter().map(|t| self.ty_params_json(*t)))));
+            f.push(("out_params", self.ty_params_json(s.output())));
+            f.push(("pred_regions", self.pred_regions_json(did)));
             f.push(("generics", self.generics_json(did)));
             f.push(("preds", self.preds_json(did)));
             f.push(("constness", js(&format!("{:?}", tcx.constness(did)))));
